@@ -176,9 +176,12 @@ impl<'a> ElfSectionIter<'a> {
     }
 
 // `impl Iterator for ElfSectionIter` (R4)
-//@extract multiboot2/src/elf_sections.rs :: impl<'a> Iterator for ElfSectionIter<'a> :: fn next
-//@  ret r
-//@  spec:
+//@extractall multiboot2/src/elf_sections.rs :: impl<'a> Iterator for ElfSectionIter<'a>
+//@  type Item: skip
+//@  fn *: rules R2
+//@  fn *: sigrewrite /Self::Item/ => /ElfSection<'a>/ x*
+//@  fn next: ret r
+//@  fn next: spec:
 //@    requires old(self).wf(), panics_allowed(),
 //@    ensures
 //@        final(self).wf(), final(self).entry_size == old(self).entry_size, final(self).string_section == old(self).string_section,
@@ -191,7 +194,7 @@ impl<'a> ElfSectionIter<'a> {
 //@        r is Some ==> r->Some_0.entry_size == old(self).entry_size && r->Some_0.string_section == old(self).string_section,
 //@        // yielded entries are exactly the ones whose raw type is a recognised in-use type
 //@        r is Some ==> spec_elf_type(r->Some_0.spec_typ()) != ElfSectionType::Unused,
-//@  loop 0:
+//@  fn next: loop 0:
 //@            invariant
 //@                self.wf(), panics_allowed(),
 //@                self.entry_size == old(self).entry_size, self.string_section == old(self).string_section,
